@@ -8,11 +8,14 @@ OUTJSON=evidence/selftest_sensitivity.json
 RES=""
 for id in $IDS; do
   PROP=$(/venv/bin/python -c "import json;print(json.load(open('seeded/$id/meta.json'))['property'])")
+  # a few changes only show in the thorough tier (e.g. a position at the documented table limit): meta.json says so
+  EXTRA=$(/venv/bin/python -c "import json;print(json.load(open('seeded/$id/meta.json')).get('check_args',''))")
   S=$(mktemp -d /dev/shm/sens.XXXX)
   cp -r /repo/src "$S/src"
   if ! patch -s -p1 -d "$S" < seeded/$id/patch.diff; then echo "$id: patch does not apply to the current tree"; RES="$RES \"$id\": \"patch_does_not_apply\","; rm -rf "$S"; continue; fi
   export VERIF_EVIDENCE_DIR="$S/ev"
-  OUT=$(VERIF_REPO_SRC="$S/src" ./check "$PROP" --budget "$BUDGET" 2>&1); rc=$?
+  if [ -n "$EXTRA" ]; then OUT=$(VERIF_REPO_SRC="$S/src" ./check "$PROP" $EXTRA 2>&1); rc=$?
+  else OUT=$(VERIF_REPO_SRC="$S/src" ./check "$PROP" --budget "$BUDGET" 2>&1); rc=$?; fi
   LINE=$(echo "$OUT" | grep -m1 "check=" | cut -c1-160)
   echo "$id ($PROP): rc=$rc $LINE"
   if [ $rc -eq 1 ]; then RES="$RES \"$id\": \"caught\","; else RES="$RES \"$id\": \"MISSED rc=$rc\","; fi
